@@ -278,6 +278,13 @@ def plain_data(func_short):
         sql = c.get_sql(pk.Query.SQL_CONTEXT.copy(parameterizer=p))
         if bad(p.values):
             return f"Column('a', default=Interval(days=1)) rendered with a parameterizer: {sql!r} values={p.values!r}"
+    if func_short.endswith("Array.get_sql"):
+        from . import Array, Field
+        a = Array(Field("x"), 1)
+        p = Parameterizer()
+        sql = a.get_sql(pk.Query.SQL_CONTEXT.copy(parameterizer=p))
+        if any(bad(v) if isinstance(v, list) else bad([v]) for v in p.values):
+            return f"Array(Field('x'), 1) rendered with a parameterizer: {sql!r} values={p.values!r}"
     if func_short.endswith("do_update"):
         t = T.Field("b")
         for qc in QUERY_CLASSES:
